@@ -190,8 +190,8 @@ func trendInds() []Ind {
 				a.Smoothing = c.F[0]
 				return func(in []C) []C { return o1(a.Compute(in[0])) }, a.IdlePeriod()
 			},
-			Doc: "EMA with multiplier Smoothing/(Period+1); 'Initial EMA value is the SMA' (code comment; the type comment is silent on the seed - not claimed).",
-			Ref: func(c Config, in In) []ref.S { return []ref.S{ref.EmaK(in[X], c.P[0], c.F[0])} },
+			Doc:      "EMA with multiplier Smoothing/(Period+1); 'Initial EMA value is the SMA' (code comment; the type comment is silent on the seed - not claimed).",
+			Ref:      func(c Config, in In) []ref.S { return []ref.S{ref.EmaK(in[X], c.P[0], c.F[0])} },
 			PriceDeg: []int{1}, VolDeg: []int{0}, Recursive: true,
 		},
 		{
@@ -372,8 +372,8 @@ func trendInds() []Ind {
 				a := trend.NewRmaWithPeriod[float64](c.P[0])
 				return func(in []C) []C { return o1(a.Compute(in[0])) }, a.IdlePeriod()
 			},
-			Doc: "R[0] to R[p-1] is SMA(values); R[p] and after is R[i] = ((R[i-1]*(p-1)) + v[i]) / p",
-			Ref: func(c Config, in In) []ref.S { return []ref.S{ref.Rma(in[X], c.P[0])} },
+			Doc:      "R[0] to R[p-1] is SMA(values); R[p] and after is R[i] = ((R[i-1]*(p-1)) + v[i]) / p",
+			Ref:      func(c Config, in In) []ref.S { return []ref.S{ref.Rma(in[X], c.P[0])} },
 			PriceDeg: []int{1}, VolDeg: []int{0}, Recursive: true,
 		},
 		{
@@ -391,8 +391,8 @@ func trendInds() []Ind {
 				a := trend.NewSmmaWithPeriod[float64](c.P[0])
 				return func(in []C) []C { return o1(a.Compute(in[0])) }, a.IdlePeriod()
 			},
-			Doc: "SMMA[0] = SMA(N); SMMA[i] = ((SMMA[i-1] * (N - 1)) + Close[i]) / N",
-			Ref: func(c Config, in In) []ref.S { return []ref.S{ref.Rma(in[X], c.P[0])} },
+			Doc:      "SMMA[0] = SMA(N); SMMA[i] = ((SMMA[i-1] * (N - 1)) + Close[i]) / N",
+			Ref:      func(c Config, in In) []ref.S { return []ref.S{ref.Rma(in[X], c.P[0])} },
 			PriceDeg: []int{1}, VolDeg: []int{0}, Recursive: true,
 		},
 		{
@@ -503,8 +503,8 @@ func trendInds() []Ind {
 				a := trend.NewWmaWith[float64](c.P[0])
 				return func(in []C) []C { return o1(a.Compute(in[0])) }, a.IdlePeriod()
 			},
-			Doc: "WMA = ((Value1 * 1/N) + (Value2 * 2/N) + ...) / 2",
-			Ref: func(c Config, in In) []ref.S { return []ref.S{wmaRef(in[X], c.P[0])} },
+			Doc:      "WMA = ((Value1 * 1/N) + (Value2 * 2/N) + ...) / 2",
+			Ref:      func(c Config, in In) []ref.S { return []ref.S{wmaRef(in[X], c.P[0])} },
 			PriceDeg: []int{1}, VolDeg: []int{0}, Window: true,
 		},
 	}
